@@ -306,7 +306,15 @@ func (ms *Modules) FindModuleByNamespace(ns string) (*Module, error) {
 		return m, nil
 	}
 	var found *Module
-	for _, m := range ms.Modules {
+	// Visit the modules in a fixed order so that the error below names
+	// the same modules in every run.
+	keys := make([]string, 0, len(ms.Modules))
+	for k := range ms.Modules {
+		keys = append(keys, k)
+	}
+	sort.Strings(keys)
+	for _, k := range keys {
+		m := ms.Modules[k]
 		if m.Namespace.Name == ns {
 			switch {
 			case m == found:
